@@ -366,12 +366,24 @@ impl<TStorage: ?Sized + ReadableStorageTraits + 'static> ArrayChunkCacheExt<TSto
                 match self.data_type().size() {
                     DataTypeSize::Variable => {
                         // Arc<ArrayBytes> -> ArrayBytes (not copied, but a bit wasteful, change merge_chunks_vlen?)
+                        // Extract the part of each chunk overlapping the array subset, relative to the array subset
                         let chunk_bytes_and_subsets = chunk_bytes_and_subsets
                             .iter()
                             .map(|(chunk_bytes, chunk_subset)| {
-                                (ArrayBytes::clone(chunk_bytes), chunk_subset.clone())
+                                let chunk_subset_overlap = chunk_subset.overlap(array_subset)?;
+                                let chunk_subset_bytes = chunk_bytes
+                                    .extract_array_subset(
+                                        &chunk_subset_overlap.relative_to(chunk_subset.start())?,
+                                        chunk_subset.shape(),
+                                        self.data_type(),
+                                    )?
+                                    .into_owned();
+                                Ok((
+                                    chunk_subset_bytes,
+                                    chunk_subset_overlap.relative_to(array_subset.start())?,
+                                ))
                             })
-                            .collect();
+                            .collect::<Result<Vec<_>, ArrayError>>()?;
                         Ok(merge_chunks_vlen(
                             chunk_bytes_and_subsets,
                             array_subset.shape(),
